@@ -30,7 +30,42 @@ def coq_cell(c):
         return f"(CI {zlit(c)})"
     if isinstance(c, str):
         return f"(CS {zstr(c)})"
+    if isinstance(c, float):
+        m, e = float_dec(c)
+        return f"(CF {zlit(m)} {zlit(e)})"
     raise TypeError(c)
+
+
+def float_dec(x: float):
+    """the decimal m * 10^e that repr(x) shows, m without trailing zeros (0.0 -> (0, 0))"""
+    from decimal import Decimal
+
+    d = Decimal(repr(x))
+    sign, digits, exp = d.as_tuple()
+    m = int("".join(map(str, digits)))
+    if m == 0:
+        return 0, 0
+    while m % 10 == 0:
+        m //= 10
+        exp += 1
+    return (-m if sign else m), exp
+
+
+def dec_float(m: int, e: int) -> float:
+    return float(f"{m}e{e}")
+
+
+FLOAT_TAG = "<f>"
+
+
+def model_floats(v):
+    """the model prints a float cell as ["<f>", m, e]"""
+    if isinstance(v, list):
+        if len(v) == 3 and v[0] == FLOAT_TAG and isinstance(v[1], int) and isinstance(v[2], int) \
+                and not isinstance(v[1], bool) and not isinstance(v[2], bool):
+            return dec_float(v[1], v[2])
+        return [model_floats(x) for x in v]
+    return v
 
 
 def coq_strs(l):
@@ -131,6 +166,7 @@ def _natify(term: str) -> str:
 
 
 def _model_canon(c, r):
+    r = model_floats(r)
     if c["kind"] == "ops":
         out = []
         for o, v in zip(c["ops"], r):
@@ -559,17 +595,52 @@ def exhaustive_rt_block(tier):
     return cases
 
 
+TYPED_COLUMNS = {
+    "int": [[0, 1, -7], [12, 12, 5], [-1, 10 ** 14, 3], [2 ** 62, -2 ** 62, 0]],
+    "float": [[0.5, -1.25, 2.0], [0.0, 100.0, 1e15], [1.5e-07, 1e-05, 0.0001], [1e16, 1e20, 2.5e+30], [123456.789, -0.001, 3.75],
+              [1.0, 2.0, 3.0]],
+    "bool": [[True, False, True], [False, False, False]],
+    "plain": [["a", "ab", "k27"], ["", "a b", "abc"], ["B", "zz", "x_y"], ["", "", "q"]],
+    # conventions of the type inference (numbers / literals written as text)
+    "numeric-looking": [["007", "010", "1"], ["1", "2", "3"], ["1", "2.5", "3"], ["1.50", "2e3", ".5"], ["007", "x", "1"]],
+    "literal-looking": [["True", "x", "None"], ["True", "False", "True"], ["None", "None", "a"]],
+    "none": [[None, 1, 2], [None, "a", None], [None, 0.5, 2.0], [None, None, None], [True, None, False]],
+    "mixed": [[1, "a", True], [1, 2.5, "x"], [0.5, True, "k"]],
+}
+
+
+def typed_rt_block(tier):
+    """round trips whose type inference the Coq model covers: every typed column alone and
+    pairs of columns of different kinds, tab and comma"""
+    cases = []
+    cols = [(k, c) for k, cs in TYPED_COLUMNS.items() for c in cs]
+    for i, (k, c) in enumerate(cols):
+        sep = "\t" if i % 2 == 0 else ","
+        cases.append(rt_case(dict(header=["h"], cols=[c]), sep, ["tsv" if sep == "\t" else "csv"], "typed-rt"))
+    step = 7 if tier == "quick" else 1
+    pairs = [(a, b) for a in cols for b in cols if a[0] != b[0]]
+    for i, ((ka, ca), (kb, cb)) in enumerate(pairs[::step]):
+        sep = "\t" if i % 2 == 0 else ","
+        fmts = ["tsv" if sep == "\t" else "csv"] + (["json", "pickle"] if i % 9 == 0 else [])
+        cases.append(rt_case(dict(header=["p", "q r"], cols=[ca, cb]), sep, fmts, "typed-rt"))
+    return cases
+
+
 def rand_rt_case(rng):
     ncols = rng.randint(1, 4)
     n = rng.choice([1, 1, 2, 3, 5, 8])
     header = rng.sample(["a", "b", "c d", "e,f", 'g"h', "i\tj", "k"], ncols)
     cols = []
     for _ in header:
-        typ = rng.choice(["int", "special", "special", "str", "bool", "intnone", "strnone", "bigint", "float"])
+        typ = rng.choice(["int", "special", "special", "str", "bool", "intnone", "strnone", "bigint", "float", "plain", "floatsci"])
         if typ == "special":
             col = [rng.choice(SPECIAL_CELLS) for _ in range(n)]
             if rng.random() < 0.5:
                 col = ["".join(rng.choice(['a', ',', '\t', '"', '\n', ' ', 'b', "'"]) for _ in range(rng.randint(0, 5))) for _ in range(n)]
+        elif typ == "plain":
+            col = [rng.choice(["a", "ab", "k27", "a b", "", "abc", "B", "zz", "x_y"]) for _ in range(n)]
+        elif typ == "floatsci":
+            col = [rng.choice([1.5e-07, 1e20, 123456.789, 1e16, 0.001, 1e-05, 2.5e+30, -4.0, 0.0, 1e15, 7.25]) for _ in range(n)]
         elif typ == "strnone":
             col = [rng.choice(["p", "q r", None, ""]) for _ in range(n)]
         elif typ == "bigint":
@@ -634,6 +705,8 @@ def corpus_cases():
         # text that evaluates
         rt_case(dict(header=["a", "b"], cols=[["id", "x"], ["1+1", "y"]]), "\t", ["tsv"], "corpus"),
         rt_case(dict(header=["a", "b"], cols=[["1/0", "x"], ["p", "y"]]), "\t", ["tsv"], "corpus"),
+        # integers beyond int64: OverflowError escapes cast_str_to_numeric
+        rt_case(dict(header=["id", "n"], cols=[[2 ** 70, 2], [1, 2]]), "\t", ["tsv", "json"], "corpus"),
         # .pkl is read as pickle but not written as pickle
         rt_case(dict(header=["a"], cols=[[1, 2]]), "\t", ["pkl"], "corpus"),
     ]
@@ -1090,6 +1163,10 @@ def loaded_text(x):
     return "" if x is None else str(x)
 
 
+def has_cr_cells(tb):
+    return any(isinstance(x, str) and "\r" in x for col in tb["cols"] for x in col) or any("\r" in h for h in tb["header"])
+
+
 def classify_rt(tb, fmt, entry):
     cells = [x for col in tb["cols"] for x in col] + list(tb["header"])
     n = len(tb["cols"][0]) if tb["cols"] else 0
@@ -1101,6 +1178,8 @@ def classify_rt(tb, fmt, entry):
             return "roundtrip:delimited:table-without-rows"
         if any(isinstance(x, str) and "\r" in x for x in cells):
             return "roundtrip:delimited:carriage-return"
+        if any(isinstance(x, int) and not isinstance(x, bool) and not -2 ** 63 <= x < 2 ** 63 for x in cells):
+            return "roundtrip:delimited:int-beyond-int64"
         strs = [x for col in tb["cols"] if kind_of(col) in "UO" for x in col if isinstance(x, str)]
         if any(looks_evaluable(x) for x in strs):
             if is_exc(entry.get("loaded")):
@@ -1157,6 +1236,18 @@ def compare_rt(rep, c, ir, mr, stats):
         # model tie: file text and the records csv.reader returns
         if mr is not None and fmt in ("tsv", "csv") and fmt == ("tsv" if c["sep"] == "\t" else "csv") and not problems:
             m_text, m_rows = mr[0], mr[1]
+            m_loaded = mr[2] if len(mr) > 2 else None
+            if m_loaded is not None and not (isinstance(m_loaded, Exc) and m_loaded.code == E_NOT_MODELLED) and not has_cr_cells(tb):
+                stats["typed_ties"] = stats.get("typed_ties", 0) + 1
+                got = _decode_obs(loaded[:3]) if isinstance(loaded, list) else loaded
+                want = {"exc": m_loaded.code} if isinstance(m_loaded, Exc) else m_loaded
+                if isinstance(got, dict):
+                    got = {"exc": got.get("exc")}
+                if got != want or (isinstance(got, list) and not all(
+                        type(a) is type(b) for ca, cb in zip(got[1], want[1]) for a, b in zip(ca, cb))):
+                    dis.append(dict(key="rt-typed:" + fmt, case=small, observed_impl=entry, model_output=_jm(mr)))
+            elif m_loaded is not None:
+                stats["typed_not_modelled"] = stats.get("typed_not_modelled", 0) + 1
             m_rows = {"exc": m_rows.code} if isinstance(m_rows, Exc) else m_rows
             has_cr = any(isinstance(x, str) and "\r" in x for col in tb["cols"] for x in col) or any("\r" in h for h in header)
             if has_cr:
@@ -1169,6 +1260,10 @@ def compare_rt(rep, c, ir, mr, stats):
 def model_ok_for(c):
     """cases whose cells the Coq model can represent (no floats)"""
     def ok(x):
+        import math
+        if isinstance(x, float):
+            # finite, not -0.0, and the decimal repr shows reads back to the same float
+            return math.isfinite(x) and repr(x) != "-0.0" and dec_float(*float_dec(x)) == x
         return x is None or isinstance(x, (bool, int, str))
     tbs = c["tables"] if c["kind"] == "ops" else [c["table"]]
     return all(ok(x) for t in tbs for col in t["cols"] for x in col)
@@ -1176,7 +1271,7 @@ def model_ok_for(c):
 
 def build_cases(tier, rng):
     cases = corpus_cases() + error_cases()
-    cases += exhaustive_join_block(tier) + exhaustive_sort_block(tier) + exhaustive_types_block(tier) + exhaustive_rt_block(tier)
+    cases += exhaustive_join_block(tier) + exhaustive_sort_block(tier) + exhaustive_types_block(tier) + exhaustive_rt_block(tier) + typed_rt_block(tier)
     n_ops = 700 if tier == "quick" else 9000
     n_rt = 250 if tier == "quick" else 3000
     cases += [random_ops_case(rng) for _ in range(n_ops)]
@@ -1193,13 +1288,17 @@ def run(tier: str, seed: int) -> int:
         "(kind='stable', modelled as a stable insertion sort), numpy.unique inverse index (modelled as the rank among distinct values), numpy.vectorize",
         "Python's csv module (writer QUOTE_MINIMAL, reader state machine) and text-mode universal newlines: re-modelled in "
         "Model/Csv.v from CPython 3.12 _csv.c and compared on file text and parsed records",
-        "type inference on load (cast_str_to_array: astype int/float/complex, eval fallback), gzip, json, pickle: compared, not modelled",
+        "type inference on load: numpy astype(int/float/complex) and ast.literal_eval are re-modelled in Model/TableLoad.v on "
+        "the classes of text it names and compared on the loaded typed cells; binary64 reproduces decimals of <= 15 significant "
+        "digits (DBL_DIG) and repr(float) is the shortest such decimal: assumed, not proved; gzip, json, pickle: compared only",
         "callbacks come from a closed predicate/expression language rendered as Python lambdas by the harness",
     ])
     rep.assumptions += [
         "theorems about tables assume a well-formed column store (equal column lengths = nrows, distinct stripped column names, index_name None)",
         "sorting theorem: key columns homogeneous int/str/bool (object-dtype columns are not modelled), no name twice in reverse=, at least one row",
         "csv round-trip theorem: no '\\r' in any cell, delimiter not one of quote/LF/CR, every record has >= 1 field",
+        "typed round-trip theorem: columns homogeneous int64 / float (<= 15 significant digits, |exponent| <= 290) / bool / plain text "
+        "(plain_textb); numeric-looking text is read as numbers by convention",
     ]
     proof_broken = bool(pr["problems"])
     if proof_broken:
@@ -1249,6 +1348,7 @@ def run(tier: str, seed: int) -> int:
         input_distribution=dict(cases=len(cases), blocks=blocks, ops=stats["ops"], oracle_applied=stats["oracle_applied"],
                                 not_modelled_steps=stats["not_modelled"], modelled_cases=len(midx),
                                 refuted_region_repaired=stats.get("refuted_region_repaired", 0),
+                                typed_load_ties=stats.get("typed_ties", 0), typed_load_not_modelled=stats.get("typed_not_modelled", 0),
                                 op_x_dtype=dict(sorted(stats.get("op_dtype", {}).items()))),
         model_impl_disagreements=len(disagreements), spec_violations=stats["spec_violations"],
         partial=PARTIAL, exhaustive=False,
@@ -1259,10 +1359,11 @@ def run(tier: str, seed: int) -> int:
 
 
 PARTIAL = [
-    "type inference on load (cast_str_to_array) and float formatting: compared by correspondence, no theorem",
+    "type inference on load for text outside the transcribed classes (signs '+', underscores, surrounding white space, inf/nan, "
+    "quotes, brackets, punctuation, > 15 significant digits, ints beyond int64): compared by correspondence, no theorem",
     "compressed / JSON / pickle round trips: compared by correspondence, no theorem",
     "sorted with a name listed twice in reverse=, and object-dtype (None / mixed) key columns: outside the sort theorem (compared / skipped)",
-    "index_name handling, title/legend rows in delimited files, float cells: not modelled",
+    "index_name handling, title/legend rows in delimited files, float arithmetic (callbacks computing with floats): not modelled",
 ]
 
 
